@@ -157,7 +157,8 @@ type Oblig struct {
 	Bytes   int
 	Model   string
 	Group   string
-	Vacuity bool // a query that is expected to be sat (reachability witness)
+	Replay  *ReplayInfo // inputs and predicted outputs of the function under verification (postcondition obligations)
+	Vacuity bool        // a query that is expected to be sat (reachability witness)
 }
 
 type Undecided struct{ Fn, Reason string }
@@ -176,6 +177,8 @@ type X struct {
 	paths       int
 	entry       *State
 	params      map[string]Val
+	retVals     []Val          // results at the return whose postconditions are being emitted
+	entryParams map[string]Val // parameter values at entry
 	loopOrd     map[*ssa.BasicBlock]int
 	walkIdx     map[ssa.Value]int
 	searchIdx   map[ssa.Value]int
@@ -254,6 +257,13 @@ func (x *X) emit(s *State, kind, name string, labels []string, goal string, clau
 			nm = fmt.Sprintf("%s/c%d", full, i+1)
 		}
 		o := &Oblig{Name: nm, Fn: x.key, Kind: kind, Labels: labels, Goal: g, PC: visiblePC(pc, grp), Clause: clause, Group: grp}
+		if kind == "ensures" && x.retVals != nil && len(s.frames) == 1 {
+			var ps []Val
+			for _, p := range x.fn.Params {
+				ps = append(ps, x.entryParams[p.Name()])
+			}
+			o.Replay = &ReplayInfo{Fn: x.fn, Params: ps, Results: x.retVals}
+		}
 		o.Decls = x.decls[:len(x.decls):len(x.decls)]
 		x.obligs = append(x.obligs, o)
 	}
@@ -1845,6 +1855,10 @@ func (x *X) verify() (res *VerifyResult) {
 		}
 		fr.env[p] = v
 		x.params[p.Name()] = v
+		if x.entryParams == nil {
+			x.entryParams = map[string]Val{}
+		}
+		x.entryParams[p.Name()] = v
 	}
 	for _, fv := range x.fn.FreeVars {
 		// closure verified on its own: captured variables are fresh cells
@@ -1884,6 +1898,8 @@ func (x *X) verify() (res *VerifyResult) {
 
 func (x *X) checkEnsures(s *State, res []Val) {
 	fr := s.top()
+	x.retVals = res
+	defer func() { x.retVals = nil }()
 	for _, c := range x.ct.Sets {
 		// ghost assignment at the return: the named ghost variable takes the value of the expression
 		s.ghost[c.LetVar] = x.flat(s, x.newEv(s, evalCtx{results: res, post: true}).eval(c.Expr))
